@@ -65,6 +65,7 @@ def convert_to_csc(
 
 def comp_edges_to_indices(
     comp_edges: pd.DataFrame,
+    n_comps: int = 1,
 ) -> Tuple[int, jnp.ndarray, jnp.ndarray, jnp.ndarray]:
     """Generates sparse matrix indices from the table of node edges.
 
@@ -72,6 +73,8 @@ def comp_edges_to_indices(
 
     Args:
         comp_edges: Dataframe with three columns (sink, source, type).
+        n_comps: The number of compartments. Compartments without any neighbour (e.g.,
+            single-compartment cells in a network) do not show up in `comp_edges`.
 
     Returns:
         n_nodes: The number of total nodes (including branchpoints).
@@ -82,6 +85,7 @@ def comp_edges_to_indices(
     sources = np.asarray(comp_edges["source"].to_list())
     sinks = np.asarray(comp_edges["sink"].to_list())
     n_nodes = np.max(sinks) + 1 if len(sinks) > 0 else 1
+    n_nodes = max(int(n_nodes), int(n_comps))
     diagonal_inds = jnp.stack([jnp.arange(n_nodes), jnp.arange(n_nodes)])
 
     # Build indices for off-diagonals.
